@@ -8,17 +8,25 @@ use std::sync::{Arc, Mutex};
 
 type Log = Arc<Mutex<Vec<String>>>;
 
+type Chain = Arc<Mutex<Option<Box<dyn FnOnce() + Send>>>>;
+
 #[derive(Clone)]
 struct Leaf {
   k: usize,
   alive: Arc<AtomicBool>,
   log: Log,
+  /// what this leaf's own teardown does besides (a member whose teardown appends to the composite it sits in)
+  chain: Chain,
 }
 
 impl Subscription for Leaf {
   fn unsubscribe(self) {
     if self.alive.swap(false, Ordering::SeqCst) {
       self.log.lock().unwrap().push(format!("(k {})", self.k));
+      let f = self.chain.lock().unwrap().take();
+      if let Some(f) = f {
+        f();
+      }
     }
   }
   fn is_closed(&self) -> bool {
@@ -35,14 +43,14 @@ impl Ctx {
   fn leaf(&mut self, k: usize) -> Leaf {
     while self.leaves.len() <= k {
       let k2 = self.leaves.len();
-      self.leaves.push(Leaf { k: k2, alive: Arc::new(AtomicBool::new(true)), log: self.log.clone() });
+      self.leaves.push(Leaf { k: k2, alive: Arc::new(AtomicBool::new(true)), log: self.log.clone(), chain: Chain::default() });
     }
     self.leaves[k].clone()
   }
 }
 
 macro_rules! subalg_runner {
-  ($m:ident, $multi:ty, $boxsub:ident, $boxty:ty) => {
+  ($m:ident, $multi:ty, $boxsub:ident, $boxty:ty, $chain:ident) => {
     mod $m {
       use super::*;
 
@@ -60,6 +68,10 @@ macro_rules! subalg_runner {
         }
       }
 
+      fn chain_to(l: &Leaf, multi: &$multi, lj: Leaf) {
+        $chain(l, multi, lj)
+      }
+
       pub fn run(ops: &[Sexp]) -> String {
         let log: Log = Log::default();
         let mut ctx = Ctx { leaves: vec![], log: log.clone() };
@@ -69,6 +81,12 @@ macro_rules! subalg_runner {
           match op.head() {
             "append" => {
               let l = ctx.leaf(a[0].usize());
+              multi.append($boxsub::new(l));
+            }
+            // leaf K, whose teardown appends leaf J to this composite, is appended (thread-safe form: the closure is Send)
+            "append_chained" => {
+              let (l, lj) = (ctx.leaf(a[0].usize()), ctx.leaf(a[1].usize()));
+              chain_to(&l, &multi, lj);
               multi.append($boxsub::new(l));
             }
             "unsub" => build(&mut ctx, &multi, &a[0]).unsubscribe(),
@@ -96,8 +114,17 @@ macro_rules! subalg_runner {
   };
 }
 
-subalg_runner!(local, MultiSubscription<'static>, BoxSubscription, BoxSubscription<'static>);
-subalg_runner!(threads, MultiSubscriptionThreads, BoxSubscriptionThreads, BoxSubscriptionThreads);
+fn chain_local(_: &Leaf, _: &MultiSubscription<'static>, _: Leaf) {
+  panic!("append_chained needs the thread-safe form (the local composite is not Send)")
+}
+
+fn chain_threads(l: &Leaf, multi: &MultiSubscriptionThreads, lj: Leaf) {
+  let mut m = multi.clone();
+  *l.chain.lock().unwrap() = Some(Box::new(move || m.append(BoxSubscriptionThreads::new(lj))));
+}
+
+subalg_runner!(local, MultiSubscription<'static>, BoxSubscription, BoxSubscription<'static>, chain_local);
+subalg_runner!(threads, MultiSubscriptionThreads, BoxSubscriptionThreads, BoxSubscriptionThreads, chain_threads);
 
 /// (subalg FORM (ops OP...))
 pub fn run_subalg(body: &[Sexp]) -> String {
